@@ -89,6 +89,10 @@ let () = run_table [
   "pkesk_open", (function [m] -> pr_res (fun (a, k) -> hexnum_of_z a ^ " " ^ hex_of_bytes k) (pkesk_open (bytes_of_hex m)) | _ -> failwith "args");
   "pad", (function [m] -> hex_of_bytes_strict (pkcs5_pad (bytes_of_hex m)) ^ " " ^ hex_of_bytes_strict (rfc_pad8 (bytes_of_hex m)) | _ -> failwith "args");
   "unpad", (function [m] -> pr_opt hex_of_bytes (pkcs5_unpad (bytes_of_hex m)) | _ -> failwith "args");
+  (* the unpadding lines of ECDHCipherText.decrypt with their exception classes *)
+  "ecdh_unpad", (function [m] -> pr_res hex_of_bytes (ecdh_unpad (bytes_of_hex m)) | _ -> failwith "args");
+  (* RFC 6637 section 8, padding to 40 octets: the model's sender and the transcription *)
+  "pad40", (function [m] -> hex_of_bytes_strict (pkcs5_pad_to (z_of_int 40) (bytes_of_hex m)) ^ " " ^ hex_of_bytes_strict (rfc_pad40 (bytes_of_hex m)) | _ -> failwith "args");
   "ecdh_param", (function [oid; h; k; fp] ->
       hex_of_bytes_strict (ecdh_param (bytes_of_hex oid) (z_of_hexnum h) (z_of_hexnum k) (bytes_of_hex fp)) ^ " " ^
       hex_of_bytes_strict (rfc_param (bytes_of_hex oid) (z_of_hexnum h) (z_of_hexnum k) (bytes_of_hex fp)) | _ -> failwith "args");
@@ -118,6 +122,10 @@ let () = run_table [
       pr_res hex_of_bytes_strict (esk_packet (SK (z_of_hexnum a, spec_of ty h salt cnt, []))) | _ -> failwith "args");
   "pkesk", (function [k; a; sk] ->
       pr_res hex_of_bytes_strict (bind (pkesk_encrypt o_rsa_enc o_ecdh_gen o_hash o_wrap (key_of_desc k) [] (z_of_hexnum a) (bytes_of_hex sk)) esk_packet)
+      | _ -> failwith "args");
+  (* ECDH session-key packet of a sender that pads m to `total` octets before the key wrap *)
+  "pkesk_to", (function [total; k; a; sk] ->
+      pr_res hex_of_bytes_strict (bind (pkesk_encrypt_to o_ecdh_gen o_hash o_wrap (z_of_int (int_of_string total)) (key_of_desc k) [] (z_of_hexnum a) (bytes_of_hex sk)) esk_packet)
       | _ -> failwith "args");
   "seipd_packet", (function [a; k; iv; d] ->
       pr_res hex_of_bytes_strict (bind (seipd_encrypt o_sha1 o_cfb_enc (z_of_hexnum a) (bytes_of_hex k) (bytes_of_hex iv) (bytes_of_hex d))
